@@ -303,26 +303,30 @@ Fixpoint provide_all (c : ctx) (off : nat) (st : N * list node) (ps : list provi
 Definition fallback_of (ps : list provider) : option provider :=
   if String.eqb OF.fallback_provider "last" then last (map Some ps) None else hd_error ps.
 
+(* the regular part of one position: dictionary nodes, then (unless the class of the character is gated) every provider in
+   configuration order.  State = (created words, node buffer). *)
+Definition normal_pass (c : ctx) (ps : list provider) (off : nat) (dict : list node) : res (N * list node) :=
+  match cw_add_all 0 (map node_len dict), nth_error (c_cats c) off with
+  | Some cw0, Some cat =>
+    if inter cat OF.oov_gate_mask then ROk (cw0, dict) else provide_all c off (cw0, dict) ps
+  | _, _ => RPanic
+  end.
+
 (* one reachable position: [dict] = the dictionary nodes already inserted there (after the can_bow filter).
    Result: the node buffer (dictionary nodes followed by the OOV nodes in creation order). *)
 Definition position_step (c : ctx) (ps : list provider) (off : nat) (dict : list node) : res (list node) :=
-  match cw_add_all 0 (map node_len dict), nth_error (c_cats c) off with
-  | Some cw0, Some cat =>
-    let r1 := if inter cat OF.oov_gate_mask then ROk (cw0, dict) else provide_all c off (cw0, dict) ps in
-    match r1 with
-    | ROk st1 =>
-      let r2 := if fst st1 =? 0
-                then match fallback_of ps with Some p => provide_oovs c off st1 p | None => RPanic end
-                else ROk st1 in
-      match r2 with
-      | ROk st2 => if fst st2 =? 0 then RErr else ROk (snd st2)
-      | RErr => RErr
-      | RPanic => RPanic
-      end
+  match normal_pass c ps off dict with
+  | ROk st1 =>
+    let r2 := if fst st1 =? 0
+              then match fallback_of ps with Some p => provide_oovs c off st1 p | None => RPanic end
+              else ROk st1 in
+    match r2 with
+    | ROk st2 => if fst st2 =? 0 then RErr else ROk (snd st2)
     | RErr => RErr
     | RPanic => RPanic
     end
-  | _, _ => RPanic
+  | RErr => RErr
+  | RPanic => RPanic
   end.
 
 (* the dictionary side is an oracle: for every position the end offsets (in characters) of the lexicon matches, in lookup
